@@ -349,7 +349,8 @@ static void hook(const void *addr, int op)
         if (!g_active || me < 0)
             return;
         LOCK();
-        point_locked(op, 0);
+        /* 7 = after a store has been performed: a scheduling point that is neither progress nor polling */
+        point_locked(op == 7 ? OP_POINT : op, 0);
         UNLOCK();
     } else if (g_perturb) {
         if (!t_rng)
